@@ -20,6 +20,9 @@ EXTENDS Integers, Sequences, FiniteSets, TLC, Json
 
 CONSTANTS MaxTok,     \* tokens per chunk
           MaxStack,   \* bound on pending grammar symbols
+          Focus,      \* "chunk": derive whole chunks; otherwise a frame around one list non-terminal, to enumerate that list
+                      \* far deeper than whole chunks allow: "params" function name ( ParList ) end, "forin" for name NameList2
+                      \* in name do end, "attnames" local AttNames ;, "funcname" function FuncName ( ) end
           DevParen    \* TRUE: as-built language (known finding Dev_ParenVarAssignable): an expression that is not an
                       \* l-value (a parenthesised expression, a call) is accepted as the target of an assignment
 
@@ -88,7 +91,14 @@ VARIABLES toks, stack
 
 vars == <<toks, stack>>
 
-Init == toks = <<>> /\ stack = <<"Block">>
+StartOf(f) ==
+    CASE f = "params"   -> <<"function", "name", "(", "ParList", ")", "end">>
+      [] f = "forin"    -> <<"for", "name", "NameList2", "in", "name", "do", "end">>
+      [] f = "attnames" -> <<"local", "AttNames", ";">>    \* (closed by ';': with '= nil' a stray name would start a new statement)
+      [] f = "funcname" -> <<"function", "FuncName", "(", ")", "end">>
+      [] OTHER          -> <<"Block">>
+
+Init == toks = <<>> /\ stack = StartOf(Focus)
 
 \* minimal number of tokens a symbol still needs (to prune derivations that cannot finish within MaxTok)
 MinLen(sym) ==
